@@ -166,18 +166,23 @@ def run(ctx):
     # verdict); a failure that shows again is reported with the scenario as its replay
     confirmed, flaky = [], 0
     seen = set()
+    reruns = 0
     for (ri, s) in bad_oracle:
         if ri in seen:
             continue
         seen.add(ri)
-        again = rerun(ctx, vh, rows[ri])
-        again = [r for r in again if not r.get("env_fail")]
-        pr = evaluate(ctx, "lc_re%d" % ri, again)[0] if again else {}
-        refail = [(again[k], x) for k, lst in pr.items() for x in lst if not x[2]]
         # a duplicate or spurious report is a fact of the recorded history; a leftover / missing report /
         # known sid may be the loaded machine (deadline passed) and has to show again
         hard = bool(s and (len(s["disc_m"]) > 1 or len(s["discing_m"]) > 1 or len(s["disc_h"]) > 1
                            or (not s["connected"] and (s["disc_m"] or s["disc_h"]))))
+        refail = []
+        if not hard and (reruns < 4 or not confirmed):
+            reruns += 1
+            again = [r for r in rerun(ctx, vh, rows[ri]) if not r.get("env_fail")]
+            pr = evaluate(ctx, "lc_re%d" % ri, again)[0] if again else {}
+            refail = [(again[k], x) for k, lst in pr.items() for x in lst if not x[2]]
+        elif not hard:
+            refail = [None]          # same run already has reproduced failures: not re-run one by one
         if refail or hard:
             confirmed.append((rows[ri], s, refail))
         else:
